@@ -386,6 +386,39 @@ Proof.
     repeat match goal with H : String.eqb r _ = true |- _ => apply String.eqb_eq in H end; congruence.
 Qed.
 
+(* ---------- several kinds at once: an ignored kind does not mask the others ---------- *)
+Definition triggered (v : view) (k : string) : bool :=
+  match dget registry k with Some f => f v | None => false end.
+Definition ignored (p : profile) (k : string) : bool :=
+  String.eqb (match dget (st p) k with Some r => r | None => "" end) "ignore".
+(* the first kind, in the order errcheck examines them, that is triggered and not ignored *)
+Definition first_live (p : profile) (v : view) (l : list string) : option string :=
+  find (fun k => triggered v k && negb (ignored p k)) l.
+
+Lemma test_fold_first_live p v l :
+  Forall (fun k => dmem registry k = true) l ->
+  fold_left (test_body p v) l (Ok None) = Ok (option_map (expected_event p) (first_live p v l)).
+Proof.
+  induction l as [|k l IH]; intros F; [reflexivity|].
+  inversion F as [|? ? Hk Hl]; subst. cbn [fold_left first_live find].
+  unfold triggered, ignored. unfold dmem in Hk. unfold test_body at 2.
+  destruct (dget registry k) as [f|]; [|discriminate].
+  destruct (f v); cbn [andb].
+  - destruct (String.eqb _ "ignore"); cbn [negb].
+    + apply IH. exact Hl.
+    + rewrite test_fold_done. reflexivity.
+  - apply IH. exact Hl.
+Qed.
+
+Theorem errcheck_first_live p v :
+  errcheck p v [] = Ok (match first_live p v (ssorted (dkeys registry)) with
+                        | Some k => expected_event p k | None => EvNone end).
+Proof.
+  rewrite errcheck_test_loop. unfold test_loop. cbn [lnull]. rewrite test_fold_first_live.
+  - destruct (first_live p v _); reflexivity.
+  - rewrite sorted_registry. repeat constructor.
+Qed.
+
 (* a table whose ids are distinct never triggers a duplicate test, whatever its size *)
 Lemma distinct_NoDup l : NoDup l -> distinct l = l.
 Proof.
